@@ -191,10 +191,11 @@ fn pick_a(b: u8) -> A {
     pick_a_masked(b, 0)
 }
 
-/// Under Miri (about 1000x slower) the big bursts are left out.
+/// Under Miri (about 1000x slower) and under the coverage-guided fuzzer (which would spend all
+/// its time in them) the big bursts are left out.
 fn small_bursts() -> bool {
     static S: std::sync::OnceLock<bool> = std::sync::OnceLock::new();
-    *S.get_or_init(|| std::env::var("VERIF_SMALL_BURSTS").is_ok() || cfg!(miri))
+    *S.get_or_init(|| std::env::var("VERIF_SMALL_BURSTS").is_ok() || cfg!(miri) || cfg!(fuzzing))
 }
 
 /// Swarm testing: a history may be restricted to a generated subset of the call kinds
